@@ -172,6 +172,16 @@ def run_shard(sh, ctx):
 			rarrs = [np.array(r, dtype=rdt) for r in refs]
 			for cname, cont in (('SignatureArray', SignatureArray(rarrs, None, dtype=np.dtype(rdt))), ('SignatureList', SignatureList(list(rarrs), None, dtype=np.dtype(rdt))), ('list', list(rarrs))):
 				got = gm.jaccarddist_array(qa, cont) if t % 2 else gm.jaccarddist_matrix([qa], cont, chunksize=rng.choice([None, 2]))[0]
+				# a selection of the references in an order of the caller's choosing (rotation, shuffle, repeats, negative positions)
+				nr = len(refs)
+				sel = rng.choice([list(range(1, nr)) + [0], rng.sample(range(nr), nr), [rng.randrange(-nr, nr) for _ in range(nr + 2)], list(range(nr))[::-1]])
+				gs = gm.jaccarddist_matrix([qa], cont, ref_indices=sel, chunksize=rng.choice([None, 2, 3, 100]))[0]
+				ctx.count('bulk_selections')
+				for pos, j in enumerate(sel):
+					su = J.dist_su(set(q), set(refs[j])); exp = J.expected_bits(*su)
+					ctx.evals += 1
+					if J.bits(gs[pos]) != exp:
+						ctx.violation('bulk-dist-bits', f'jaccarddist_matrix(ref_indices={sel}) via {cname}: column {pos} = {float(gs[pos])!r} expected bits {exp:#x} for reference {j} (s/u={su[0]}/{su[1]})', dict(query=q, ref=refs[j], selection=sel, container=cname)); break
 				for j, r in enumerate(refs):
 					su = J.dist_su(set(q), set(r))
 					exp = J.expected_bits(*su)
